@@ -71,6 +71,8 @@ func (t *websocketTransport) Send(ctx context.Context, e envelope) error {
 		// Effectively fails all pending write operations before returning.
 		// Note that this makes the encoder to be in a permanent error state.
 		_ = t.conn.SetWriteDeadline(time.Now())
+		// the deadline above only applies to the next write: also interrupt the one in progress
+		_ = t.conn.UnderlyingConn().SetWriteDeadline(time.Now())
 		<-errChan
 		return fmt.Errorf("ws transport: send: %w", ctx.Err())
 	case err := <-errChan:
